@@ -13,7 +13,7 @@ LEVEL = 'exploration'
 RULE = ('case = one direct call of a helper of bits_ops.py / shift.py compared with the reference primitive, or one '
         'read / write of a named register field compared with the architectural bit positions; helpers enumerated '
         'exhaustively for widths 1..8 (all operands, shifts 0..2w+2, both carries), all 2x4096 modified immediates '
-        'with both carries, all (type, imm5), corner+random operands at widths 32 and 64 with every shift 0..255; '
+        'with both carries, all (type, imm5), corner+random operands at widths 32 and 64 with every shift 0..255; bit-field insert / extract on 33-, 40- and 64-bit images with non-zero bits above the field; '
         'fields: every in-range value for fields <= 8 bits (corners beyond) over zero / ones / random backgrounds; '
         'RGNR.REGION under eight configured region counts; non-trivial = result differs from the first operand or the write changes the register; distinct = '
         '(function, width, shift class) or (class.field, value class, background)')
@@ -219,6 +219,20 @@ def wide(mon, spec):
                 mon.cmp('sign_extend', (x & 0xFFFF, 16, n), lambda: B.sign_extend(x & 0xFFFF, 16, n), R.SignExtend(x & 0xFFFF, 16, n), 'w%d' % n)
                 mon.cmp('bit_count1', (x, 1, n), lambda: B.bit_count(x, 1, n), R.BitCount(x, n), 'w%d' % n)
                 mon.cmp('lowest_set_bit_ref', (x, n), lambda: B.lowest_set_bit_ref(x, n), R.LowestSetBit(x, n), 'w%d' % n)
+        # bit-field insert into operands WIDER than the field's neighbourhood: 40- and 64-bit images (descriptors, the
+        # 64-bit base registers, RdHi:RdLo) with non-zero bits above the field and above bit 31 - every bit outside <hi:lo> stays
+        for n in (33, 40, 64):
+            x = rng.getrandbits(n) | (1 << (n - 1)) | (rng.getrandbits(8) << (n - 9))
+            hi = rng.choice([0, 1, 7, 11, 15, 30, 31, 32, n - 2, rng.randrange(n)])
+            lo = rng.randrange(hi + 1)
+            w = hi - lo + 1
+            v = rng.choice([0, (1 << w) - 1, rng.getrandbits(w)])
+            exp = (x & ~(((1 << w) - 1) << lo)) | (v << lo)
+            mon.cmp('set_substring', (x, hi, lo, v), lambda: B.set_substring(x, hi, lo, v), exp, 'w%d|wide-operand' % n, nontrivial=(exp != x))
+            bv = rng.randrange(2)
+            exp = (x & ~(1 << hi)) | (bv << hi)
+            mon.cmp('set_bit_at', (x, hi, bv), lambda: B.set_bit_at(x, hi, bv), exp, 'w%d|wide-operand' % n, nontrivial=(exp != x))
+            mon.cmp('substring', (x, hi, lo), lambda: B.substring(x, hi, lo), (x >> lo) & ((1 << w) - 1), 'w%d|wide-operand' % n)
         for nb in (1, 2, 4, 8):
             v = rng.getrandbits(8 * nb)
             mon.cmp('big_endian_reverse', (v, nb), lambda: B.big_endian_reverse(v, nb), R.BigEndianReverse(v, nb), 'n%d' % nb)
